@@ -117,9 +117,7 @@ class Server(utils.EventEmitter):
                 channel.connection.handle,
                 channel.source_cid,
             )
-            channel.sink = lambda pdu: self.on_gatt_pdu(
-                channel, att.ATT_PDU.from_bytes(pdu)
-            )
+            channel.sink = lambda pdu: self.on_gatt_pdu_bytes(channel, pdu)
 
         return self.device.create_l2cap_server(
             spec or l2cap.LeCreditBasedChannelSpec(psm=att.EATT_PSM), handler=on_channel
@@ -573,6 +571,31 @@ class Server(utils.EventEmitter):
                     att.is_enhanced_bearer(other) and other.connection is bearer
                 ):
                     registry.pop(other, None)
+
+    def on_gatt_pdu_bytes(self, bearer: att.Bearer, pdu: bytes) -> None:
+        """
+        Parse and process a PDU received on a bearer. A request that cannot be parsed
+        is still a request: it is answered with an Error Response (Invalid PDU).
+        """
+        try:
+            att_pdu = att.ATT_PDU.from_bytes(pdu)
+        except Exception:
+            logger.warning(f'invalid ATT PDU from {_bearer_id(bearer)}: {pdu.hex()}')
+            if (
+                pdu
+                and pdu[0] & 0x41 == 0
+                and pdu[0] != att.Opcode.ATT_HANDLE_VALUE_CONFIRMATION
+            ):
+                self.send_response(
+                    bearer,
+                    att.ATT_Error_Response(
+                        request_opcode_in_error=pdu[0],
+                        attribute_handle_in_error=0x0000,
+                        error_code=att.ATT_INVALID_PDU_ERROR,
+                    ),
+                )
+            return
+        self.on_gatt_pdu(bearer, att_pdu)
 
     def on_gatt_pdu(self, bearer: att.Bearer, att_pdu: att.ATT_PDU) -> None:
         logger.debug(f'GATT Request to server: {_bearer_id(bearer)} {att_pdu}')
